@@ -134,7 +134,7 @@ pub fn run_cases(cases_path: &str, out_path: &str, bin: &str, workdir: &str) {
 		let countries = ["$default", "printable-all", "printable-question", "nonprintable-gt", "nonprintable-at", "nonascii", "empty"];
 		let cns = ["$default", "utf8", "empty", "printable-question", "padded", "nbsp-padded", "tab-newline-padded"];
 		let names = [["$default", "$default"], ["leaf", "ca"], ["www.example.org", "example.org.ca"], ["site.leaf", "site.ca"], ["with space", "root ca"], ["a.b.c", "a.b.d"], ["Gateway", "gateway"]];
-		let dirs = ["existing", "missing", "nested", "rerun-longer-first"];
+		let dirs = ["existing", "missing", "nested", "rerun-longer-first", "non-utf8", "unicode-spaces"];
 		for _ in 0..2500 {
 			let ns: Vec<&str> = (0..r.below(5)).map(|_| if r.chance(1, 12) { "nonascii" } else { *r.pick(&sans[..3]) }).collect();
 			let ns: Vec<&str> = if r.chance(1, 10) { vec![*r.pick(&sans)] } else { ns };
@@ -165,14 +165,20 @@ pub fn run_cases(cases_path: &str, out_path: &str, bin: &str, workdir: &str) {
 		let dir_kind = sval(c, "dir");
 		let outdir = match dir_kind.as_str() {
 			"missing" => root.join("does-not-exist-yet"),
+			// a path that is not UTF-8 (any byte string is a path here) and one with spaces and non-ASCII letters
+			"non-utf8" => {
+				use std::os::unix::ffi::OsStringExt;
+				root.join(std::ffi::OsString::from_vec(vec![b'o', b'u', b't', 0xff, b'd', b'i', b'r']))
+			},
+			"unicode-spaces" => root.join("aus gabe \u{fc}\u{4e2d}"),
 			"nested" => root.join("a").join("b").join("c"),
 			_ => root.join("out"),
 		};
 		if dir_kind == "existing" || dir_kind == "rerun-longer-first" {
 			std::fs::create_dir_all(&outdir).unwrap();
 		}
-		let mk_args = |o: &Opts, alg_override: Option<&str>, extra_sans: usize| -> Vec<String> {
-			let mut a: Vec<String> = vec!["-o".into(), outdir.to_string_lossy().to_string()];
+		let mk_args = |o: &Opts, alg_override: Option<&str>, extra_sans: usize| -> Vec<std::ffi::OsString> {
+			let mut a: Vec<String> = Vec::new();
 			let alg = alg_override.unwrap_or(&o.alg);
 			if alg != "$default" {
 				a.push(format!("--{}", alg));
@@ -204,7 +210,10 @@ pub fn run_cases(cases_path: &str, out_path: &str, bin: &str, workdir: &str) {
 			if let Some(n) = &o.org {
 				a.push(format!("--organization-name={}", n));
 			}
-			a
+			// the output directory goes in as the operating system's own string (it need not be UTF-8)
+			let mut all: Vec<std::ffi::OsString> = vec!["-o".into(), outdir.as_os_str().to_owned()];
+			all.extend(a.into_iter().map(std::ffi::OsString::from));
+			all
 		};
 		if dir_kind == "rerun-longer-first" {
 			// a first, longer run into the same directory and names (P-384, many SANs); its outcome is not judged here
